@@ -24,7 +24,7 @@ fn offset_at(tz: Tz, utc: NaiveDateTime) -> i64 {
 }
 
 /// Transitions of `tz` in [1970, 2038): (first UTC second of the new offset, new offset).
-fn transitions(tz: Tz) -> Vec<(NaiveDateTime, i64)> {
+pub fn transitions(tz: Tz) -> Vec<(NaiveDateTime, i64)> {
     let mut out = Vec::new();
     let mut t = NaiveDate::from_ymd_opt(1970, 1, 1).unwrap().and_hms_opt(0, 0, 0).unwrap();
     let end = NaiveDate::from_ymd_opt(2038, 1, 1).unwrap().and_hms_opt(0, 0, 0).unwrap();
